@@ -159,6 +159,13 @@ def check_case(case, ctx):
     snaps = (snapshot("in1"), snapshot("in2"))
     v = []
     from .. import pools
+    if neg is None and case.get("limit", 0) % 3 == 0:
+        # second use: the output directory already holds an older result (every field of both inputs)
+        ctx.label("output-directory-holds-an-older-result")
+        try:
+            qcall(combine, qcall(PlotfileCooker, "in1"), qcall(PlotfileCooker, "in2"), pltout="out")
+        except Exception as e:
+            return [f"combine raised {type(e).__name__}: {str(e)[:200]} (all fields)"]
     sched = pools.set_schedule(case.get("sched"))
     try:
         how = case.get("how", "api")
